@@ -122,6 +122,7 @@ pub struct Exec {
     pub disk_stats: crate::disk::Stats,
     pub oplog_hash: u64,
     pub dead_end: bool,
+    pub known: Vec<String>,
 }
 
 pub fn is_io_error_str(s: &str) -> bool {
@@ -155,12 +156,22 @@ impl Exec {
             disk_stats: Default::default(),
             oplog_hash: 0,
             dead_end: false,
+            known: vec![],
         }
     }
 
     pub fn viol(&mut self, prop: &str, tag: &str, detail: String) {
+        let v = Viol { prop: prop.into(), tag: tag.into(), detail };
+        // a listed known finding is noted and the run goes on, so that it cannot hide anything
+        // else that the rest of the run would have shown
+        if let Some(k) = crate::runner::known_finding(&v) {
+            if self.known.len() < 20 {
+                self.known.push(format!("KNOWN-FINDING: property={} {}", v.prop, k));
+            }
+            return;
+        }
         if self.viols.len() < 20 {
-            self.viols.push(Viol { prop: prop.into(), tag: tag.into(), detail });
+            self.viols.push(v);
         }
     }
 
@@ -334,6 +345,7 @@ impl Exec {
                 self.versions.push(st);
                 self.cur = self.versions.len() - 1;
                 self.allowed.insert(self.cur);
+                self.disk.marker(Marker::Resynced { landed: v as u32, new: self.cur as u32 });
                 true
             }
             None => {
